@@ -241,7 +241,10 @@ TApply == /\ Ev("Apply") /\ ph = "cont"
           /\ (IF Trace[l].ok THEN TRUE ELSE Note(l, "ContinuationAccepted"))
           /\ UNCHANGED <<ctx, st, mn, ph, pend, plan, win, clean, ci, drift>>
 
-SameIndex(a, b) == a.canon = b.canon
+(* the canonical index up to the head (entries an interrupted ResetTo left ABOVE the head are overwritten by the   *)
+(* next blocks and are not part of the chain)                                                               *)
+CanonUpToHead(o) == {o.canon[j] : j \in {x \in 1..Len(o.canon) : o.canon[x].h <= o.head.h}}
+SameIndex(a, b) == CanonUpToHead(a) = CanonUpToHead(b)
 
 TFinal == /\ Ev("Final")
           /\ LET e == Trace[l]
